@@ -86,7 +86,7 @@ macro_rules! db_harness {
 }
 
 //@ harness: c13_crash_second_store_153_152 c13_crash_second_store_152_152
-//@ tier: quick
+//@ tier: thorough
 //@ timeout: 1800
 //@ mem: 14
 //@ unwindset: mmap_append=170; memcmp.0=20
